@@ -366,3 +366,368 @@ Proof.
   - apply num_vless; apply num_ok_any; apply Hs; assumption.
   - apply str_vless; apply Hs; assumption.
 Qed.
+
+(* ================================================================= order: an error iff an incomparable pair is compared *)
+
+Definition bad_cmp (p : value * value) : bool := is_err (vless (fst p) (snd p)).
+
+(* the error flag only accumulates *)
+Lemma ins_flag : forall x rd right err,
+  order_ins x rd right err =
+  match order_ins x rd right false with
+  | Ok (o, e) => Ok (o, err || e)
+  | r => r
+  end.
+Proof.
+  intros x rd. induction rd as [|y rd IH]; intros right err; cbn [order_ins].
+  - rewrite orb_false_r. reflexivity.
+  - destruct (vless x y) as [[|]| | | |]; try reflexivity.
+    + apply IH.
+    + rewrite orb_false_r. reflexivity.
+    + rewrite orb_true_r. reflexivity.
+    + rewrite orb_true_r. reflexivity.
+Qed.
+
+Lemma ins_err : forall x rd right o e,
+  order_ins x rd right false = Ok (o, e) -> e = existsb bad_cmp (ins_cmps x rd).
+Proof.
+  intros x rd. induction rd as [|y rd IH]; intros right o e; cbn [order_ins ins_cmps existsb].
+  - intros H. inversion H. reflexivity.
+  - unfold bad_cmp at 1. cbn [fst snd]. destruct (vless x y) as [[|]| | | |]; cbn [is_err orb existsb]; try discriminate.
+    + apply IH.
+    + intros H. inversion H. reflexivity.
+    + intros H. inversion H. reflexivity.
+    + intros H. inversion H. reflexivity.
+Qed.
+
+Lemma loop_flag : forall todo done err,
+  order_loop done todo err =
+  match order_loop done todo false with
+  | Ok (o, e) => Ok (o, err || e)
+  | r => r
+  end.
+Proof.
+  induction todo as [|x todo IH]; intros done err; cbn [order_loop].
+  - rewrite orb_false_r. reflexivity.
+  - rewrite (ins_flag x (rev done) [] err). destruct (order_ins x (rev done) [] false) as [[o e]| | | |]; try reflexivity.
+    rewrite (IH o (err || e)), (IH o e).
+    destruct (order_loop o todo false) as [[o' e']| | | |]; try reflexivity. rewrite orb_assoc. reflexivity.
+Qed.
+
+Lemma loop_err : forall todo done o e,
+  order_loop done todo false = Ok (o, e) -> e = existsb bad_cmp (loop_cmps done todo).
+Proof.
+  induction todo as [|x todo IH]; intros done o e; cbn [order_loop loop_cmps].
+  - intros H. inversion H. reflexivity.
+  - destruct (order_ins x (rev done) [] false) as [[o1 e1]| | | |] eqn:E1; try discriminate.
+    rewrite (loop_flag todo o1 e1). destruct (order_loop o1 todo false) as [[o2 e2]| | | |] eqn:E2; try discriminate.
+    intros H. inversion H; subst. rewrite existsb_app, (ins_err _ _ _ _ _ E1), (IH _ _ _ E2). reflexivity.
+Qed.
+
+(* the sort itself never fails: it answers, or leaves the exact model *)
+Lemma ins_ok_or_unsup : forall x rd right err,
+  (exists o e, order_ins x rd right err = Ok (o, e)) \/ order_ins x rd right err = Unsup.
+Proof.
+  intros x rd. induction rd as [|y rd IH]; intros right err; cbn [order_ins]; [left; eauto|].
+  destruct (vless_cases x y) as [[[|] Hr]|[He|Hu]]; rewrite ?Hr, ?He, ?Hu; eauto.
+Qed.
+
+Lemma loop_ok_or_unsup : forall todo done err,
+  (exists o e, order_loop done todo err = Ok (o, e)) \/ order_loop done todo err = Unsup.
+Proof.
+  induction todo as [|x todo IH]; intros done err; cbn [order_loop]; [left; eauto|].
+  destruct (ins_ok_or_unsup x (rev done) [] err) as [(o & e & H)|H]; rewrite H; [apply IH|right; reflexivity].
+Qed.
+
+(* order fails exactly when one of the comparisons it makes is between incomparable elements *)
+Theorem order_error_iff : forall l, order_model l <> Unsup ->
+  is_err (order_model l) = existsb bad_cmp (order_cmps l).
+Proof.
+  intros l Hu. unfold order_model, order_cmps in *.
+  destruct (loop_ok_or_unsup l [] false) as [(o & e & H)|H]; rewrite H in *; [|congruence].
+  rewrite <- (loop_err _ _ _ _ H). destruct e; reflexivity.
+Qed.
+
+(* every comparison is between two elements of the list *)
+Lemma ins_cmps_in : forall x rd p, In p (ins_cmps x rd) -> fst p = x /\ In (snd p) rd.
+Proof.
+  intros x rd. induction rd as [|y rd IH]; intros p; cbn [ins_cmps]; [intros []|].
+  intros [<-|H]; [split; [reflexivity|left; reflexivity]|].
+  destruct (vless x y) as [[|]| | | |]; try destruct H. destruct (IH p H) as [H1 H2]. split; [exact H1|right; exact H2].
+Qed.
+
+(* ================================================================= the checker accepts what the model answers *)
+
+(* elements the exact model covers: ints below 2^53, no caught error text, maps with distinct keys *)
+Definition elem_ok (v : value) : Prop := small_ints v = true /\ is_errtext v = false /\ wf_keys v = true.
+
+Definition is_numv (v : value) : bool := match v with VInt _ | VFloat _ => true | _ => false end.
+
+Lemma lt_spec_classes : forall x y r, lt_spec x y = Some r ->
+  (is_numv x = true /\ is_numv y = true) \/ (is_str x = true /\ is_str y = true).
+Proof.
+  intros x y r. destruct x, y; cbn; try discriminate; try (destruct f; discriminate); intros _;
+    first [left; split; reflexivity|right; split; reflexivity].
+Qed.
+
+Lemma class_lt_spec : forall x y,
+  (is_numv x = true /\ is_numv y = true) \/ (is_str x = true /\ is_str y = true) -> lt_spec x y <> None.
+Proof.
+  intros x y [[Hx Hy]|[Hx Hy]]; destruct x, y; try discriminate; cbn [lt_spec]; try discriminate;
+    rewrite ?xnum_of_float; cbn [xnum_of]; discriminate.
+Qed.
+
+Lemma ok_vless_not_unsup : forall x y, elem_ok x -> elem_ok y -> vless x y <> Unsup.
+Proof. intros x y (S1 & E1 & _) (S2 & E2 & _). apply vless_supported; assumption. Qed.
+
+Lemma ins_ok : forall x rd right err, elem_ok x -> Forall elem_ok rd ->
+  exists o e, order_ins x rd right err = Ok (o, e).
+Proof.
+  intros x rd. induction rd as [|y rd IH]; intros right err Hx Hrd; cbn [order_ins]; [eauto|].
+  inversion Hrd; subst. pose proof (ok_vless_not_unsup x y Hx H1) as Hn.
+  destruct (vless_cases x y) as [[[|] Hr]|[He|Hu]]; rewrite ?Hr, ?He; eauto. congruence.
+Qed.
+
+Lemma ins_perm : forall x rd right err o e,
+  order_ins x rd right err = Ok (o, e) -> Permutation o (x :: rev rd ++ right).
+Proof.
+  intros x rd. induction rd as [|y rd IH]; intros right err o e; cbn [order_ins].
+  - intros H. inversion H. apply Permutation_refl.
+  - destruct (vless x y) as [[|]| | | |]; try discriminate.
+    + intros H. apply IH in H. eapply Permutation_trans; [exact H|]. cbn [rev]. rewrite <- app_assoc. apply Permutation_refl.
+    + intros H. inversion H; subst. apply Permutation_sym. apply Permutation_middle.
+    + intros H. inversion H; subst. apply Permutation_sym. apply Permutation_middle.
+    + intros H. inversion H; subst. apply Permutation_sym. apply Permutation_middle.
+Qed.
+
+Lemma loop_ok : forall todo done err, Forall elem_ok done -> Forall elem_ok todo ->
+  exists o e, order_loop done todo err = Ok (o, e) /\ Permutation o (done ++ todo).
+Proof.
+  induction todo as [|x todo IH]; intros done err Hd Ht; cbn [order_loop].
+  - exists done, err. rewrite app_nil_r. split; [reflexivity|apply Permutation_refl].
+  - inversion Ht; subst.
+    destruct (ins_ok x (rev done) [] err H1 (Forall_rev Hd)) as (o1 & e1 & E1). rewrite E1.
+    pose proof (ins_perm _ _ _ _ _ _ E1) as P1. rewrite rev_involutive, app_nil_r in P1.
+    assert (Ho1 : Forall elem_ok o1).
+    { apply Forall_forall. intros z Hz. apply (Permutation_in _ P1) in Hz.
+      destruct Hz as [<-|Hz]; [exact H1|]. rewrite Forall_forall in Hd. apply Hd. exact Hz. }
+    destruct (IH o1 e1 Ho1 H2) as (o & e & E & P). exists o, e. split; [exact E|].
+    eapply Permutation_trans; [exact P|]. eapply Permutation_trans; [apply Permutation_app_tail; exact P1|].
+    cbn [app]. apply Permutation_middle.
+Qed.
+
+(* all elements numbers, or all strings *)
+Definition one_class (l : list value) : Prop := Forall (fun v => is_numv v = true) l \/ Forall (fun v => is_str v = true) l.
+
+Lemma one_class_perm : forall l l', Permutation l l' -> one_class l -> one_class l'.
+Proof.
+  intros l l' Hp [H|H]; [left|right]; apply Forall_forall; intros z Hz; rewrite Forall_forall in H; apply H;
+    apply (Permutation_in _ (Permutation_sym Hp)); exact Hz.
+Qed.
+
+Lemma numv_not_str : forall v, is_numv v = true -> is_str v = true -> False.
+Proof. intros v. destruct v; discriminate. Qed.
+
+(* no error registered => the elements are all numbers or all strings (two or more elements) *)
+Lemma loop_noerr_class : forall todo done o,
+  Forall elem_ok done -> Forall elem_ok todo ->
+  order_loop done todo false = Ok (o, false) ->
+  (length done <= 1)%nat \/ one_class done ->
+  (2 <= length (done ++ todo))%nat -> one_class (done ++ todo).
+Proof.
+  induction todo as [|x todo IH]; intros done o Hd Ht H Hinv Hlen.
+  - rewrite app_nil_r in *. destruct Hinv as [Hl|Hc]; [lia|exact Hc].
+  - inversion Ht as [|? ? Hx Ht']; subst. cbn [order_loop] in H.
+    destruct (order_ins x (rev done) [] false) as [[o1 e1]| | | |] eqn:E1; try discriminate.
+    rewrite (loop_flag todo o1 e1) in H.
+    destruct (order_loop o1 todo false) as [[o2 e2]| | | |] eqn:E2; try discriminate.
+    inversion H; subst. apply orb_false_iff in H2. destruct H2 as [-> ->].
+    pose proof (ins_perm _ _ _ _ _ _ E1) as P1. rewrite rev_involutive, app_nil_r in P1.
+    assert (Ho1 : Forall elem_ok o1).
+    { apply Forall_forall. intros z Hz. apply (Permutation_in _ P1) in Hz.
+      destruct Hz as [<-|Hz]; [exact Hx|]. rewrite Forall_forall in Hd. apply Hd. exact Hz. }
+    assert (Pall : Permutation (o1 ++ todo) (done ++ x :: todo)).
+    { eapply Permutation_trans; [apply Permutation_app_tail; exact P1|]. cbn [app]. apply Permutation_middle. }
+    assert (Hlen1 : (2 <= length (o1 ++ todo))%nat) by (rewrite (Permutation_length Pall); exact Hlen).
+    apply (one_class_perm _ _ Pall). apply (IH o1 o Ho1 Ht' E2); [|exact Hlen1].
+    destruct done as [|d0 done'] eqn:Ed.
+    + left. rewrite (Permutation_length P1). cbn. lia.
+    + right. rewrite <- Ed in *.
+      (* the first comparison is with the last element of done, and it did not fail *)
+      destruct (last_cases done) as [E|(dl & y & E)]; [rewrite E in Ed; discriminate|].
+      assert (Hy : In y done) by (rewrite E; apply in_or_app; right; left; reflexivity).
+      assert (Hyok : elem_ok y) by (rewrite Forall_forall in Hd; apply Hd; exact Hy).
+      pose proof (ins_err _ _ _ _ _ E1) as Eb. rewrite E, rev_app_distr in Eb. cbn [rev app ins_cmps existsb] in Eb.
+      symmetry in Eb. apply orb_false_iff in Eb. destruct Eb as [Eb _]. unfold bad_cmp in Eb. cbn [fst snd] in Eb.
+      assert (Hcl : (is_numv x = true /\ is_numv y = true) \/ (is_str x = true /\ is_str y = true)).
+      { destruct (vless_cases x y) as [[r Hr]|[He|Hu]].
+        - eapply lt_spec_classes. apply vless_spec. exact Hr.
+        - rewrite He in Eb. discriminate.
+        - exfalso. exact (ok_vless_not_unsup x y Hx Hyok Hu). }
+      apply (one_class_perm (x :: done)); [apply Permutation_sym; exact P1|].
+      destruct Hinv as [Hl|[Hc|Hc]].
+      * (* done = [y] *)
+        assert (done = [y]).
+        { rewrite E in Hl |- *. rewrite app_length in Hl. cbn in Hl. destruct dl; [reflexivity|cbn in Hl; lia]. }
+        rewrite H0. destruct Hcl as [[Hc1 Hc2]|[Hc1 Hc2]]; [left|right]; (constructor; [exact Hc1|constructor; [exact Hc2|constructor]]).
+      * left. constructor; [|exact Hc]. destruct Hcl as [[H1 _]|[_ H2]]; [exact H1|].
+        rewrite Forall_forall in Hc. exfalso. exact (numv_not_str y (Hc y Hy) H2).
+      * right. constructor; [|exact Hc]. destruct Hcl as [[_ H2]|[H1 _]]; [|exact H1].
+        rewrite Forall_forall in Hc. exfalso. exact (numv_not_str y H2 (Hc y Hy)).
+Qed.
+
+(* ---------- structural identity ---------- *)
+
+Lemma fl_same_eq : forall f g, fl_same f g = true <-> f = g.
+Proof.
+  intros f g. destruct f, g; cbn; split; try discriminate; try reflexivity; intros H.
+  - apply andb_true_iff in H. destruct H as [H1 H2]. f_equal; lia.
+  - inversion H; subst. rewrite !Z.eqb_refl. reflexivity.
+  - apply Bool.eqb_prop in H. congruence.
+  - inversion H. destruct neg0; reflexivity.
+Qed.
+
+Lemma val_same_refl : forall v, wf_keys v = true -> val_same v v = true.
+Proof.
+  intros v. induction v as [z|f|s|b|l IH|m IH|ps body cap self|t] using value_ind2; intros Hw; cbn [val_same].
+  - apply Z.eqb_refl.
+  - apply fl_same_eq. reflexivity.
+  - apply str_eqb_refl.
+  - destruct b; reflexivity.
+  - apply wf_keys_list in Hw. induction l as [|x l IHl]; [reflexivity|].
+    inversion IH; subst. inversion Hw; subst. rewrite H1 by assumption. cbn. apply IHl; assumption.
+  - apply wf_keys_map in Hw. destruct Hw as [Hn Hw]. rewrite Nat.eqb_refl. cbn [andb].
+    rewrite Forall_forall in IH, Hw.
+    assert (G : forall m', (forall kv, In kv m' -> In kv m) ->
+              (fix go (ma : list (str * value)) : bool :=
+                 match ma with
+                 | [] => true
+                 | (k, v) :: ma' => match assoc_v k m with Some o => val_same v o | None => false end && go ma'
+                 end) m' = true).
+    { induction m' as [|[k v] m' IHm]; intros Hsub; [reflexivity|].
+      assert (Hin : In (k, v) m) by (apply Hsub; left; reflexivity).
+      rewrite (nodup_keys_in m k v Hn Hin). pose proof (IH (k, v) Hin (Hw (k, v) Hin)) as Hvv. cbn [snd] in Hvv.
+      rewrite Hvv. cbn [andb].
+      apply IHm. intros kv Hkv. apply Hsub. right. exact Hkv. }
+    apply G. auto.
+  - apply Nat.eqb_refl.
+  - destruct t; [apply str_eqb_refl|reflexivity].
+Qed.
+
+Lemma class_val_same_eq : forall x y, is_numv x = true \/ is_str x = true -> val_same x y = true -> x = y.
+Proof.
+  intros x y [H|H]; destruct x; try discriminate; destruct y; cbn [val_same]; try discriminate; intros E.
+  - f_equal. lia.
+  - f_equal. apply fl_same_eq. exact E.
+  - f_equal. apply str_eqb_eq. exact E.
+Qed.
+
+Lemma remove_same_first : forall x b, val_same x x = true -> (forall y, val_same x y = true -> x = y) -> In x b ->
+  exists b1 b2, b = b1 ++ x :: b2 /\ remove_same x b = Some (b1 ++ b2).
+Proof.
+  intros x b Hr He. induction b as [|y b IH]; intros Hin; [destruct Hin|]. cbn [remove_same].
+  destruct (val_same x y) eqn:E.
+  - apply He in E. subst y. exists [], b. split; reflexivity.
+  - destruct Hin as [->|Hin]; [congruence|]. destruct (IH Hin) as (b1 & b2 & -> & Hrm). rewrite Hrm.
+    exists (y :: b1), b2. split; reflexivity.
+Qed.
+
+Lemma perm_same_complete : forall a b,
+  (forall x, In x a -> val_same x x = true /\ forall y, val_same x y = true -> x = y) ->
+  Permutation a b -> perm_same a b = true.
+Proof.
+  induction a as [|x a IH]; intros b Ha Hp; cbn [perm_same].
+  - apply Permutation_nil in Hp. subst. reflexivity.
+  - destruct (Ha x (or_introl eq_refl)) as [Hr He].
+    assert (Hin : In x b) by (apply (Permutation_in _ Hp); left; reflexivity).
+    destruct (remove_same_first x b Hr He Hin) as (b1 & b2 & -> & Hrm). rewrite Hrm.
+    apply IH; [intros z Hz; apply Ha; right; exact Hz|]. eapply Permutation_cons_app_inv. exact Hp.
+Qed.
+
+Lemma sorted_spec_of_SS : forall out,
+  StronglySorted (fun a b => ltb_spec b a = false) out -> sorted_spec out = true.
+Proof.
+  induction out as [|x out IH]; intros H; [reflexivity|]. inversion H as [|? ? Hs Hf]; subst. cbn [sorted_spec].
+  rewrite (IH Hs), andb_true_r. apply forallb_forall. intros y Hy. rewrite Forall_forall in Hf.
+  specialize (Hf y Hy). unfold ltb_spec in Hf. destruct (lt_spec y x) as [[|]|]; [discriminate|reflexivity|reflexivity].
+Qed.
+
+Lemma apc_of_class : forall l, one_class l -> all_pairs_comparable l = true.
+Proof.
+  induction l as [|x l IH]; intros Hc; [reflexivity|]. cbn [all_pairs_comparable].
+  assert (Hl : one_class l) by (destruct Hc as [H|H]; inversion H; [left|right]; assumption).
+  rewrite (IH Hl), andb_true_r. apply forallb_forall. intros y Hy.
+  assert (Hxy : lt_spec x y <> None).
+  { apply class_lt_spec. destruct Hc as [H|H]; rewrite Forall_forall in H; [left|right];
+      (split; apply H; [left; reflexivity|right; exact Hy]). }
+  destruct (lt_spec x y); [reflexivity|congruence].
+Qed.
+
+Lemma class_of_apc : forall x y l, all_pairs_comparable (x :: y :: l) = true -> one_class (x :: y :: l).
+Proof.
+  intros x y l H. cbn [all_pairs_comparable] in H. apply andb_true_iff in H. destruct H as [H _].
+  rewrite forallb_forall in H.
+  assert (Hall : forall z, In z (y :: l) ->
+            (is_numv x = true /\ is_numv z = true) \/ (is_str x = true /\ is_str z = true)).
+  { intros z Hz. specialize (H z Hz). destruct (lt_spec x z) eqn:E; [|discriminate]. eapply lt_spec_classes. exact E. }
+  destruct (Hall y (or_introl eq_refl)) as [[Hx _]|[Hx _]].
+  - left. constructor; [exact Hx|]. apply Forall_forall. intros z Hz.
+    destruct (Hall z Hz) as [[_ Hz']|[Hx' _]]; [exact Hz'|exfalso; exact (numv_not_str x Hx Hx')].
+  - right. constructor; [exact Hx|]. apply Forall_forall. intros z Hz.
+    destruct (Hall z Hz) as [[Hx' _]|[_ Hz']]; [exfalso; exact (numv_not_str x Hx' Hx)|exact Hz'].
+Qed.
+
+Lemma has_nan_false_num_ok : forall l, Forall elem_ok l -> Forall (fun v => is_numv v = true) l ->
+  has_nan l = false -> forallb num_ok l = true.
+Proof.
+  intros l Ho Hn Hnan. apply forallb_forall. intros v Hv. rewrite Forall_forall in Ho, Hn.
+  destruct (Ho v Hv) as (Hs & _ & _). specialize (Hn v Hv).
+  assert (Hf : (match v with VFloat FNaN => true | _ => false end) = false).
+  { unfold has_nan in Hnan. destruct (match v with VFloat FNaN => true | _ => false end) eqn:E; [|reflexivity].
+    assert (existsb (fun v => match v with VFloat FNaN => true | _ => false end) l = true)
+      by (apply existsb_exists; exists v; split; assumption). congruence. }
+  destruct v; try discriminate; cbn in *; [exact Hs|destruct f; try reflexivity; discriminate].
+Qed.
+
+(* whatever the list (ints below 2^53, no caught error text, maps with distinct keys): the specification
+   checker of the correspondence run accepts the answer of the model *)
+Theorem order_checker_accepts : forall l, Forall elem_ok l -> order_allowed l (order_model l) = true.
+Proof.
+  intros l Hok. unfold order_allowed.
+  destruct (loop_ok l [] false (Forall_nil _) Hok) as (o & e & Ho & Hp). cbn [app] in Hp.
+  destruct (all_pairs_comparable l) eqn:A.
+  - (* comparable: a permutation, sorted unless a NaN is among the elements *)
+    destruct l as [|x [|y l]].
+    + reflexivity.
+    + unfold order_model. cbn. inversion Hok as [|? ? (_ & _ & Hw) _]; subst. rewrite (val_same_refl x Hw). cbn. apply orb_true_r.
+    + pose proof (class_of_apc _ _ _ A) as Hc. set (L := x :: y :: l) in *.
+      assert (Hsame : forall z, In z L -> val_same z z = true /\ forall w, val_same z w = true -> z = w).
+      { intros z Hz. assert (Hzc : is_numv z = true \/ is_str z = true).
+        { destruct Hc as [H|H]; rewrite Forall_forall in H; [left|right]; apply H; exact Hz. }
+        split; [|intros w; apply class_val_same_eq; exact Hzc].
+        rewrite Forall_forall in Hok. destruct (Hok z Hz) as (_ & _ & Hw). apply val_same_refl. exact Hw. }
+      destruct (has_nan L) eqn:Hnan.
+      * (* only the permutation is demanded *)
+        assert (Hcls : exists P : value -> Prop, Forall P L /\ forall a b, P a -> P b -> vless a b = Ok (ltb_spec a b)).
+        { destruct Hc as [H|H].
+          - exists (fun v => num_any v = true). split; [|intros a b; apply num_vless].
+            apply Forall_forall. intros z Hz. rewrite Forall_forall in H, Hok. specialize (H z Hz).
+            destruct (Hok z Hz) as (Hs & _ & _). destruct z; try discriminate; cbn in *; [exact Hs|reflexivity].
+          - exists (fun v => is_str v = true). split; [exact H|exact str_vless]. }
+        destruct Hcls as (P & HP & Hv).
+        destruct (loop_perm P ltb_spec Hv L [] false (Forall_nil _) HP) as (out & Hout & Hperm & _).
+        unfold order_model. rewrite Hout. cbn [app] in Hperm. rewrite (perm_same_complete L out Hsame Hperm). reflexivity.
+      * assert (Hs : sortable L = true).
+        { unfold sortable. destruct Hc as [H|H].
+          - rewrite (has_nan_false_num_ok L Hok H Hnan). reflexivity.
+          - replace (forallb is_str L) with true; [apply orb_true_r|]. symmetry. apply forallb_forall.
+            rewrite Forall_forall in H. exact H. }
+        destruct (order_model_sorted L Hs) as (out & Hout & Hperm & Hss & _). rewrite Hout.
+        rewrite (perm_same_complete L out Hsame Hperm), (sorted_spec_of_SS out Hss). reflexivity.
+  - (* not all comparable: at least two elements, and the sort meets an incomparable pair *)
+    unfold order_model. rewrite Ho. destruct e; [reflexivity|]. exfalso.
+    assert (Hlen : (2 <= length l)%nat).
+    { destruct l as [|x [|y l]]; cbn in A; try discriminate. cbn. lia. }
+    pose proof (loop_noerr_class l [] o (Forall_nil _) Hok Ho (or_introl (Nat.le_0_l 1)) Hlen) as Hc.
+    cbn [app] in Hc. rewrite (apc_of_class l Hc) in A. discriminate.
+Qed.
